@@ -68,7 +68,8 @@ XBW::XBW(std::istream &input) {
       unmap[mapping[i]] = i;
     }
 
-  delete ((SequenceBuilderWaveletTree *)sbb);
+  // Releases sbb, am and wcc as well (the wavelet tree keeps its own uses).
+  delete ssb;
 
   // Free the temporary arrays
   delete[] alphaInt;
